@@ -138,18 +138,33 @@ def _expected_after_flat(ex, pairs):
                 if (name and k.startswith(name)) or (not name and k[:1].isdigit()):
                     return None            # a key that may still address something: not predicted here
                 continue
-            if v == "" and prune:
+            if isinstance(v, str) and v == "" and prune:    # "empty" is the empty STRING, nothing else (see assumptions)
                 continue
             by_index.setdefault(int(m.group(1)), v)      # the first pair of a slot wins
         if not prune:
-            return None
+            # lossless: members up to the highest index seen, the ones without a pair blank
+            if not by_index:
+                return []
+            if max(by_index) >= 1024:
+                return None
+            blank = ms().value
+            r = []
+            for i in range(max(by_index) + 1):
+                if i in by_index:
+                    a = _adapt_all(ex, [by_index[i]])
+                    if isinstance(a, tuple):
+                        return None
+                    r.append(a[0])
+                else:
+                    r.append(blank)
+            return r
         vals = [by_index[i] for i in sorted(by_index)]
     elif kind in ("array", "multi") and name:
         want = name + ("_" + mname if mname else "")
         vals = []
         for k, v in pairs:
             if k == want:
-                if v == "" and prune:
+                if isinstance(v, str) and v == "" and prune:
                     continue
                 vals.append(v)
             elif k.startswith(name):
@@ -158,6 +173,30 @@ def _expected_after_flat(ex, pairs):
         return None
     r = _adapt_all(ex, vals)
     return None if isinstance(r, tuple) else r
+
+
+def _expected_after_roundtrip(ex, before_pairs, text):
+    """members' values after `seq.set_flat(seq.flatten(value=lambda e: e.value))` (or the text form): the plain list
+    of the values the sequence held, re-adapted, member i at index i — minus, on a pruning sequence, the members whose
+    flat value is the empty string.  Predicted for scalar members and for Dict members with scalar fields (a pruned
+    field comes back blank; a member all of whose fields are pruned disappears).  None = not predicted."""
+    root = ex.root
+    kind = G.kind_of_element(root)
+    ms = root.member_schema
+    prune = bool(getattr(root, "prune_empty", True))
+    mk = G.kind_of_class(ms)
+    if mk in ("integer", "string"):
+        if kind in ("array", "multi") and not root.name and not ms.name and len(before_pairs) > 0:
+            return None        # the key of every pair is None / '': not predicted here
+        vals = [(u if text else v) for v, u in before_pairs]
+        empty = lambda x: isinstance(x, str) and x == ""
+        if kind == "list" and not prune:
+            pass
+        else:
+            vals = [x for x in vals if not (prune and empty(x))]
+        r = _adapt_all(ex, vals)
+        return None if isinstance(r, tuple) else r
+    return None
 
 
 def _expected_after_route(ex, init, out):
@@ -323,6 +362,15 @@ def make_check():
                         items.clear()
                     elif name == "imul":
                         items *= op["n"]          # plain list semantics on the adapted items
+                    elif name == "set_flat_rt":
+                        ref.items = [_item(m) for m in root]
+                        exp = _expected_after_roundtrip(ex, before_pairs, bool(op.get("text")))
+                        if info.get("tainted"):
+                            exp = None      # an aliased member (listed twice) is flattened once: outside the quantifier
+                        if exp is not None and raised is None and exp != ref.values():
+                            extra["flat_pairs"] = G.vj([list(p) for p in ex.memo.get("rt_pairs", [])])
+                            fail("flatten-set_flat-round-trip", G.vj(exp), G.vj(ref.values()))
+                            extra.clear()
                     elif name in ("set", "set_default", "set_flat"):
                         # construction routes: the reference restarts from what they produced ...
                         ref.items = [_item(m) for m in root]
@@ -671,6 +719,15 @@ class C09(Property):
         "reference is resynchronised at every step and the positional clauses skip that member",
         "Element arguments are fresh or detached elements of the member schema (no aliasing)",
         "MultiValue.value is the first member's value (documented), the list clause is checked on iteration",
+        "set_flat / from_flat and EMPTY values: `prune_empty` is documented as 'skip missing index numbers in set_flat', the "
+        "code comments say 'missing (or empty-valued) indexes are omitted', and the unchanged code drops exactly the pairs "
+        "whose value == '' (List, Array and MultiValue alike). So 'empty' is the empty STRING a blank form input sends — "
+        "not a falsy native: integer 0, False, 0.0 and None are values (None is kept as a member whose adapted value is "
+        "None; the unchanged library is consistent on this across List / Array / MultiValue, no finding). Flat pairs may "
+        "carry natives: `flatten(value=lambda e: e.value)` is documented in Element.flatten and the library's tests feed "
+        "ints to from_flat. Reference: the plain list of the adapted values of the non-pruned pairs, member i at index i "
+        "(pruning: in index order; non-pruning List: up to the highest index, gaps blank); for the flatten round trip on "
+        "the sequence itself: the list of the values it held, minus (pruning) the members whose flat value is ''",
     ]
     rule = ("histories of 1-14 list-protocol calls (all 25 operation kinds; indexes in -8..7, slices with "
             "None/negative/out-of-range bounds and steps in {None,1,2,3,-1,-2,0}) on a List / Array / MultiValue of "
@@ -679,6 +736,7 @@ class C09(Property):
             "Cases the Lean model does not cover (set_flat/from_flat, model paths answering unsupported) are marked oracle-only before the run and are not counted as validated traces (tag model=oracle-only). "
             "Element arguments are read (root/path/parents/fq_name) before they are handed over in half of the cases; 'observe' steps only read. "
             "25 % of the histories (tag fp:case, oracle only) exercise failure / recovery paths: a second sequence of the same class kept alive, calls aimed at it, live members as arguments, item assignment and insert with out-of-range and NON-INTEGER indexes ('1', None, 1.5), extended-slice size mismatches, items the member schema rejects, a sort key that raises on its second call, followed by calls that succeed. "
+            "16 % of the histories use flat routes (oracle only): half of them with NATIVE flat values (0, False, True, None, negatives; '' and '0' as text for contrast) in from_flat / set_flat pairs, 30 % on non-pruning sequences, each with one or two flatten round trips `seq.set_flat(seq.flatten(value=lambda e: e.value))` (or the text form) placed after list calls that put 0 / False / None / '' / '0' into the list (tags flat:*). "
             "non-trivial = at least 3 calls changed the sequence or raised")
     quick_n = 40000
     thorough_n = 300000
@@ -735,6 +793,25 @@ class C09(Property):
                     "init": {"route": "ctor_value", "value": {"l": [1, 2, 3]}},
                     "ops": [{"t": 0, "tt": 1, "s": {"op": "insert", "i": 0, "ix": "str", "a": lv(0, 2)}},
                             _op({"op": "append", "a": {"v": 4}})]})
+        # seeded C09-set-flat-prunes-falsy-natives: native falsy flat values are VALUES, only '' is empty; then the
+        # native flatten round trip after list calls that left zeros in the list ([7, 5, 0, 0] must come back)
+        Li = _seq("list", _int(2, "i"), name="l")
+        out.append({"schema": Li, "nomodel": True,
+                    "init": {"route": "set_flat", "value": None, "pairs": [["l_0_i", 0], ["l_1_i", 1], ["l_2_i", 2]]},
+                    "ops": [_op({"op": "getitem", "i": 0}), _op({"op": "index", "a": {"v": 1}}),
+                            _op({"op": "set_flat", "pairs": [["l_0_i", False], ["l_1_i", ""], ["l_2_i", None], ["l_3_i", "0"], ["l_5_i", -3]]}),
+                            _op({"op": "clear"}), _op({"op": "extend", "as": [{"v": 5}, {"v": 0}]}),
+                            _op({"op": "insert", "i": 0, "a": {"v": 7}}), _op({"op": "append", "a": {"v": 0}}),
+                            _op({"op": "set_flat_rt"}), _op({"op": "count", "a": {"v": 0}}),
+                            _op({"op": "set_flat_rt", "text": True})]})
+        Ln = _seq("list", _int(2, "i"), name="l")
+        Ln["prune"] = False
+        out.append({"schema": Ln, "nomodel": True,
+                    "init": {"route": "from_flat", "value": None, "pairs": [["l_2_i", 0], ["l_0_i", ""]]},
+                    "ops": [_op({"op": "len"}), _op({"op": "set_flat_rt"})]})
+        out.append({"schema": _seq("array", _int(2), name="a"), "nomodel": True,
+                    "init": {"route": "set_flat", "value": None, "pairs": [["a", 0], ["a", ""], ["a", None], ["a", False], ["a", "0"]]},
+                    "ops": [_op({"op": "append", "a": {"v": 0}}), _op({"op": "set_flat_rt"})]})
         # past disagreements / edge shapes
         out.append({"schema": _seq("list", I), "init": {"route": "ctor_value", "value": {"l": [1, 2, 3, 4, 5]}},
                     "ops": [_op({"op": "setslice", "sl": [None, None, 2], "as": [{"v": 7}]}),
@@ -779,11 +856,38 @@ class C09(Property):
             init = {"route": route, "value": G.gen_value(rng, schema, valid=not hostile)}
             # set_flat / from_flat (oracle only: the flat-key parser is C01/C02's model): a tenth of the histories;
             # Arrays/MultiValues are flattenable only with scalar members
-            flat = rng.random() < 0.1 and (kind == "list" or member["k"] in ("integer", "string"))
+            flat = rng.random() < 0.16 and (kind == "list" or member["k"] in ("integer", "string"))
+            # half of the flat histories carry NATIVE flat values (ints incl. 0 and negatives, bools, None; '' and '0'
+            # as text for contrast) and the native flatten round trip; 30 % of them are on NON-pruning sequences
+            native = flat and rng.random() < 0.5
+            if flat and rng.random() < 0.3:
+                schema["prune"] = False
             if flat and rng.random() < 0.5:
-                init = {"route": rng.choice(["from_flat", "set_flat"]), "value": None, "pairs": G.gen_flat_pairs(rng, schema)}
+                init = {"route": rng.choice(["from_flat", "set_flat"]), "value": None,
+                        "pairs": G.gen_flat_pairs(rng, schema, native=native)}
             nops = rng.choice([1, 2, 3, 4, 6, 8, 10, 14])
             ops = [_op(G.gen_seq_op(rng, member, valid=not hostile, seq=schema if flat else None)) for _ in range(nops)]
+            if flat:
+                for o in ops:
+                    if o["s"]["op"] == "set_flat" and native:
+                        o["s"]["pairs"] = G.gen_flat_pairs(rng, schema, native=True)
+                # the flatten round trip after list operations that may have left zeros / Falses / Nones / '' in the list
+                for _ in range(rng.choice([1, 1, 2])):
+                    pos = rng.randint(0, len(ops))
+                    pre = []
+                    if rng.random() < 0.6:
+                        zero = rng.choice([0, 0, False, None, "", "0", -1])
+                        how = rng.choice(["append", "insert", "extend"])
+                        if how == "append":
+                            pre = [_op({"op": "append", "a": {"v": zero}})]
+                        elif how == "insert":
+                            pre = [_op({"op": "insert", "i": rng.choice([0, 1, -1]), "a": {"v": zero}})]
+                        else:
+                            pre = [_op({"op": "extend", "as": [{"v": rng.choice([5, 7, "a"])}, {"v": zero}, {"v": 0}]})]
+                    rt = {"op": "set_flat_rt"}
+                    if not native and rng.random() < 0.5:
+                        rt["text"] = True
+                    ops[pos:pos] = pre + [_op(rt), _op({"op": "getitem", "i": 0})]
             # set(<iterable with Elements>) leaves members no other route can build (KF-C09-c: value None with text the
             # member schema WOULD adapt); it is generated as the last call of a history so that the finding's class
             # stays the call itself
@@ -872,6 +976,26 @@ class C09(Property):
                     t.append("fp:aliased-elements-present")
         if G.has_failure_paths(case):
             t.append("fp:case")
+        # flat routes: text / native values, falsy natives, non-pruning, round trips
+        def _pairs_tags(pairs, what):
+            if any(not isinstance(v, str) for _, v in pairs):
+                t.append("flat:%s:native-values" % what)
+            if any((v is None or v is False or (isinstance(v, int) and v == 0)) for _, v in pairs):
+                t.append("flat:%s:falsy-native" % what)
+            if any(v == "" for _, v in pairs if isinstance(v, str)):
+                t.append("flat:%s:empty-text" % what)
+        if case["init"].get("pairs") is not None and case["init"]["route"] in ("from_flat", "set_flat"):
+            _pairs_tags(case["init"]["pairs"], "route")
+        for o, st in zip(case["ops"], obs["steps"][1:]):
+            sop = o["s"]
+            if sop["op"] == "set_flat":
+                _pairs_tags(sop["pairs"], "set_flat")
+            elif sop["op"] == "set_flat_rt":
+                t.append("flat:roundtrip:" + ("text" if sop.get("text") else "native"))
+        if case["schema"].get("prune") is False:
+            t.append("flat:non-pruning")
+        elif G.has_flat(case):
+            t.append("flat:pruning")
         t.append("maxlen=%d" % min(12, max(s["view"]["len"] for s in obs["steps"])))
         return sorted(set(t))
 
